@@ -106,7 +106,7 @@ fn crash_violation(msg: &str, step: usize) -> Violation {
 fn minimise(mut rp: Replay, want: &Verdict) -> Replay {
     let orig = rp.steps.len();
     let mut tries = 0u32;
-    let mut test = |cand: &Replay, tries: &mut u32| -> bool {
+    let test = |cand: &Replay, tries: &mut u32| -> bool {
         *tries += 1;
         *tries < 4000 && same_failure(want, &run_isolated(cand))
     };
